@@ -26,7 +26,13 @@ MANIFEST = dict(
          "executed against the real cbuf.c (assertions+ASan and shipped flavour) on a deterministic core of op "
          "histories plus random ones, and the real code is also compared op by op with the FIFO specification "
          "(with its history of replayable bytes), which yields the failing history as replay; every public call "
-         "is checked for the locking discipline.",
+         "is checked for the locking discipline.  The two-lock protocol of cbuf_copy/cbuf_move is proved "
+         "deadlock-free for any threads, calls, directions and schedules (ordered acquisition; the unordered "
+         "protocol deadlocks: witness); on the real code every two-buffer call must take the two mutexes in the "
+         "same order as every earlier one, and two real threads copy and move in opposite directions under a "
+         "watchdog (no deadlock, no byte lost or duplicated).  alloc-size/minsize/maxsize are proved constants "
+         "of the buffer; every additive int statement of cbuf.c (list regenerated from the source) is "
+         "classified by a bound class proved safe for max <= INT_MAX/2.",
     design_ref="DESIGN.md section 5 C13",
     note="Lean 4.33 kernel; axioms propext/Classical.choice/Quot.sound at most (audited per theorem every run); "
          "hand-written model tied to cbuf.c by differential execution of the real source built from /repo's "
@@ -244,7 +250,13 @@ def run(ctx):
     ok1 = ctx.cc(exe_dbg, [os.path.join(HARNESS, "cbuf_harness.c")], san=True, assertions=True)
     ok2 = ctx.cc(exe_rel, [os.path.join(HARNESS, "cbuf_harness.c")], san=True, assertions=False)
     cov = {"evaluations": 0, "distinct_nontrivial": 0, "samples": [],
-           "rule": "FIRST a deterministic core, identical at every seed (blocks `core:*` of the distribution): all "
+           "rule": "FIRST a deterministic core, identical at every seed (blocks `core:*` of the distribution): "
+                   "descriptor calls whose source/sink stops exactly at (and one byte before/after) every chunk "
+                   "boundary of the copy loop after a partial transfer, at every wrap position, with EAGAIN / EIO / "
+                   "EPIPE / EOF behind it (requests that cross the array end once and several times); every call "
+                   "that takes a length with n = used-1, used, used+1, 2*used+3, -1 (replay side: relative to the "
+                   "replayable bytes) at every wrap position and fill level, two-buffer calls in both directions "
+                   "between the same buffers; all "
                    "sequences of length <= 4 over a 9-op alphabet on a min=2,max=5 buffer per mode; every public "
                    "operation with boundary arguments (lines -1/0/1/many, lengths around every line length, "
                    "descriptor capacities 0.., short reads 0..request, EOF/EAGAIN, EINTR before every read/write) x "
@@ -261,7 +273,10 @@ def run(ctx):
                    "with boundary-biased lengths (free-1, free, free+1, size, "
                    "size+1, 2*size+3), all three overwrite modes, buffer shapes tiny/min=max/chunk-growth/"
                    "production(64,131072); non-trivial = the sequence reached a buffer growth or an overwrite "
-                   "(ndropped>0); distinct = distinct op-sequence text"}
+                   "(ndropped>0); distinct = distinct op-sequence text.  LAST the lock-order stage: two real "
+                   "threads, 3000 iterations each (thorough: 60000) of write / copy or move to the other buffer / "
+                   "read on two NO_DROP buffers in opposite directions, rendezvous after the first lock of every "
+                   "two-lock call, watchdog"}
     if ok1 and ok2:
         import subprocess
         flavours = []
@@ -271,12 +286,17 @@ def run(ctx):
         nseq = 500 if ctx.quick() else 12000
         corpus = load_corpus()
         replay_seq = None
+        replay_mt = False
         if getattr(ctx, "replay", None):
             import json
             rj = json.load(open(ctx.replay))
             rc = rj.get("case")
             if rc is None:
                 ctx.log("replay file records a broken theorem/correspondence, not an input: running the normal check")
+            elif isinstance(rc, dict) and "mt" in rc:
+                # a deadlock / lock-order replay: only the two-thread stage is re-run
+                replay_seq, replay_mt = [], True
+                nseq, corpus = 0, []
             else:
                 replay_seq = rc["ops"] if isinstance(rc, dict) else rc
                 nseq, corpus = 0, []
@@ -287,7 +307,9 @@ def run(ctx):
             # named blocks, processed in this order; the deterministic core (the same in every run,
             # whatever VERIF_SEED is) comes before the random sequences
             blocks = [("corpus", [[l.replace("META", str(meta)) for l in s] for s in corpus])]
-            if replay_seq:
+            if replay_mt:
+                pass
+            elif replay_seq:
                 # a replay re-runs exactly the recorded op sequence (create lines re-targeted to this flavour)
                 blocks.append(("replay", [[" ".join(l.split()[:3] + [str(meta)]) if l.startswith("create ") else l
                                            for l in replay_seq]]))
@@ -300,7 +322,7 @@ def run(ctx):
                 dist["shapes"][shape] = dist["shapes"].get(shape, 0) + 1
                 rnd.append(gen_seq(rng, meta, rng.randrange(4, 40 if shape != "prod" else 14), shape))
             blocks.append(("random", rnd))
-            if ctx.tier == "thorough" and name.startswith("assert") and not replay_seq:
+            if ctx.tier == "thorough" and name.startswith("assert") and replay_seq is None:
                 blocks.append(("exhaustive-small", exhaustive_small(meta)))
             found = 0
             for bname, seqs in blocks:
@@ -312,6 +334,9 @@ def run(ctx):
                     dist["blocks"][bname + "/" + name] = "skipped after %d findings" % found
                     continue
                 found += process_block(ctx, cov, dist, distinct, exe, name, bname, seqs)
+        if replay_seq is None or replay_mt:
+            for exe, name, meta in flavours:
+                lock_order_stage(ctx, dist, exe, name)
         cov["distinct_nontrivial"] = len(distinct)
         cov["distribution"] = dist
         cov["traces_validated_against_impl"] = cov["evaluations"]
@@ -321,6 +346,8 @@ def run(ctx):
                      "memcpy/memmove/realloc behave per ISO C; realloc never fails",
                      "pthread mutexes are mutually exclusive; every public function of cbuf.c is one critical "
                      "section of the buffer's mutex (checked on every call the harness makes, not proved of the C text)",
+                     "cbuf_copy / cbuf_move take their two mutexes in one fixed total order (checked on every call of "
+                     "every history and by the two-thread run; LockOrder.lean proves that this excludes deadlock)",
                      "growth policy of cbuf_grow: any choice that covers the request or reaches the maximum "
                      "(Admissible); the choices of the code under test are observed, not assumed"],
         trusted_base=["Lean 4.33 kernel", "axioms: propext, Classical.choice, Quot.sound at most (audited per theorem)",
@@ -328,6 +355,46 @@ def run(ctx):
                       "Gen/Cbuf.lean regenerated from /repo (CBUF_CHUNK, mode codes, every prototype of cbuf.h)",
                       "harness/cbuf_harness.c, vlib/, gcc, ASan/UBSan"],
         checker_cmd="lake build PdshVerif.Props.C13 && #print axioms on every theorem of Props/C13.lean")
+
+
+def lock_order_stage(ctx, dist, exe, name):
+    """cbuf_copy / cbuf_move take TWO mutexes: two real threads copy and move in opposite directions
+    between two NO_DROP buffers (harness `--mt`), interleaved with single-buffer calls.  Oracle
+    (policy-free): the run ends (no deadlock: PdshVerif/Cbuf/LockOrder.lean proves that ordered
+    locking cannot deadlock and exhibits the deadlock of the unordered protocol), the two mutexes
+    were never taken in two different orders, no byte was lost or duplicated (every copy / move is
+    one critical section of both buffers), no call failed other than with ENOSPC."""
+    import subprocess
+    iters = 3000 if ctx.quick() else 60000
+    env = dict(os.environ, ASAN_OPTIONS="detect_leaks=0")
+    out, rc = "", None
+    for attempt in (0, 1):      # a timeout alone is re-tried once before it is reported
+        try:
+            p = subprocess.run([exe, "--mt", str(iters), "20"], stdout=subprocess.PIPE, stderr=subprocess.PIPE,
+                               timeout=90, env=env)
+            out, rc = p.stdout.decode("utf-8", "replace").strip(), p.returncode
+            err = p.stderr.decode("utf-8", "replace")[-800:]
+            break
+        except subprocess.TimeoutExpired:
+            out, rc, err = "", -999, "TIMEOUT (the watchdog of the harness did not fire either)"
+    dist["lock_order"] = dist.get("lock_order", {})
+    dist["lock_order"][name] = out[:300] or ("rc=%s" % rc)
+    case = {"flavour": name, "mt": "--mt %d 20" % iters, "impl": out[:400], "rc": rc}
+    if rc == 0 and out.startswith("mt done") and " conserved=1 " in out and " failed=0 " in out and " order_inverted=0 " in out:
+        return 0
+    if "DEADLOCK" in out or rc == -999:
+        ctx.offender("deadlock", "two threads copying / moving between two buffers in opposite directions block each "
+                     "other for ever (%s): %s" % (name, out[:200] or err), case)
+    elif out.startswith("mt done") and " order_inverted=1 " in out:
+        ctx.offender("lock-order", "cbuf_copy / cbuf_move took the same two mutexes in two different orders (%s): a "
+                     "deadlock is possible: %s" % (name, out[:200]), case)
+    elif out.startswith("mt done"):
+        ctx.offender("mt-atomicity", "bytes lost / duplicated or calls failed when two threads copy and move between "
+                     "two NO_DROP buffers (%s): %s" % (name, out[:300]), case)
+    else:
+        ctx.offender("crash", "cbuf.c aborts (assertion/sanitizer/fatal) in the two-thread run (%s): rc=%s %s" %
+                     (name, rc, (out + " " + err)[-600:]), case)
+    return 1
 
 
 def run_batch_capped(cmd, seqs, env, max_crashes=3, timeout=600):
@@ -677,6 +744,128 @@ def prod_fill(meta):
     return [seq]
 
 
+def chunk_boundaries(meta):
+    """descriptor calls whose source / sink stops EXACTLY at a chunk boundary of the copy loop, after a
+    partial transfer, at every wrap position: the request crosses the physical end of the data
+    array (once, or several times when the buffer wraps many times), the descriptor delivers /
+    takes the bytes up to the array end (+ k whole turns) and then fails (EAGAIN, EIO) or is at EOF
+    -- the bytes already transferred must be stored / consumed and reported; one byte less (short
+    count) and one byte more; then everything is read back and replayed."""
+    out = []
+    for size in (3, 5):
+        cells = size + 1
+        # sources: cbuf_write_from_fd
+        for rot in range(0, cells):
+            for u in sorted({0, 1, size - 1}):
+                i_in = (rot + u) % cells
+                dist = cells - i_in
+                for mode in (0, 1, 2):
+                    pre = ["create %d %d %d" % (size, size, meta)]
+                    if rot:
+                        pre += ["write " + pat(rot, 3), "read %d" % rot]
+                    pre += ["opt %d" % mode]
+                    if u:
+                        pre += ["write " + pat(u, 1)]
+                    for ln in (dist + 1, dist + 2, cells + dist + 1, -1):
+                        for av in (dist, dist + cells, dist - 1, dist + 1):
+                            if av < 0 or (ln != -1 and av > ln):
+                                continue
+                            for eof in (0, 1, 2):
+                                op = ["wfd %d %s %d" % (ln, pat(av, 4), eof)]
+                                if eof == 2:
+                                    op = ["errno 1"] + op       # the exhausted descriptor fails with EIO
+                                out.append(pre + op + ["pline 99 -1", "read 99", "replay 99"])
+        # sinks: cbuf_read_to_fd / cbuf_peek_to_fd stop at / around the array end
+        for rot in range(0, cells):
+            for u in range(1, size + 1):
+                dist = cells - rot
+                pre = ["create %d %d %d" % (size, size, meta)]
+                if rot:
+                    pre += ["write " + pat(rot, 3), "read %d" % rot]
+                pre += ["write " + pat(u, 2)]
+                for op in ("rfd", "pfd"):
+                    for ln in (-1, u, u + 1):
+                        for cap in sorted({0, dist - 1, dist, dist + 1}):
+                            for ek in (0, 1, 2):
+                                o = ["%s %d %d" % (op, ln, cap)]
+                                if ek:
+                                    o = ["errno %d" % ek] + o
+                                out.append(pre + o + ["read 99", "replay 99"])
+        # sinks: cbuf_replay_to_fd with a history that straddles the array end
+        for t in range(1, 2 * cells + 1):
+            pre = ["create %d %d %d" % (size, size, meta)]
+            for k in range(t):
+                pre += ["write %02x" % (97 + k % 26), "read 1"]
+            r = min(t, size)
+            for ln in sorted({-1, r - 1, r, r + 1} - {0, -2}):
+                for cap in range(0, r + 2):
+                    for ek in (0, 1):
+                        o = ["yfd %d %d" % (ln, cap)]
+                        if ek:
+                            o = ["errno 1"] + o
+                        out.append(pre + o + ["replay 99"])
+    return out
+
+
+def beyond_contents(meta):
+    """return value against effect for EVERY call that takes a length, with arguments at and beyond
+    the contents: n = used-1, used, used+1, 2*used+3, -1 (for the replay side: relative to the
+    number of replayable bytes), at every wrap position and fill level; the effect shows in the
+    counters of the answer and in what is read back and replayed afterwards.  The two-buffer calls
+    run in BOTH directions between the same two buffers (the harness checks that the two mutexes are
+    always taken in the same order)."""
+    out = []
+    for mn, mx in ((3, 3), (2, 5)):
+        for rot in range(0, mn + 1):
+            for u in range(0, mx + 1):
+                for nl in (0, 1):
+                    if nl and u == 0:
+                        continue
+                    fill = pat(u, 1)
+                    if nl:
+                        fill = fill[:-2] + "0a"
+                    pre = ["create %d %d %d" % (mn, mx, meta)]
+                    if rot:
+                        pre += ["write " + pat(rot, 3), "read %d" % rot]
+                    if u:
+                        pre += ["write " + fill]
+                    r = rot
+                    tail = ["read 99", "replay 99"]
+                    for n in sorted({u - 1, u, u + 1, 2 * u + 3, -1} - {-2}):
+                        if n < -1:
+                            continue
+                        for k in ("read", "peek", "drop"):
+                            out.append(pre + ["%s %d" % (k, n)] + tail)
+                        for k in ("rfd", "pfd"):
+                            out.append(pre + ["%s %d 99" % (k, n)] + tail)
+                        for lines in (-1, 1):
+                            out.append(pre + ["dline %d %d" % (n, lines)] + tail)
+                            # line reads: `len` is the size of the caller's buffer (contents + NUL)
+                            out.append(pre + ["rline %d %d" % (n + 1, lines)] + tail)
+                            out.append(pre + ["pline %d %d" % (n + 1, lines)] + tail)
+                    for n in sorted({r - 1, r, r + 1, 2 * r + 3, -1} - {-2}):
+                        if n < -1:
+                            continue
+                        out.append(pre + ["replay %d" % n] + tail)
+                        out.append(pre + ["rewind %d" % n] + tail)
+                        out.append(pre + ["yfd %d 99" % n] + tail)
+                        for lines in (-1, 1):
+                            out.append(pre + ["yline %d %d" % (n + 1, lines)] + tail)
+                            out.append(pre + ["wrline %d %d" % (n, lines)] + tail)
+                    # buffer to buffer, both directions between the same two buffers
+                    if nl:
+                        continue
+                    for dmn, dmx, dmode in ((9, 9, 2), (1, 2, 0), (2, 2, 1)):
+                        pre2 = pre + ["sel 1", "create %d %d %d" % (dmn, dmx, meta), "opt %d" % dmode, "write 7a", "sel 0"]
+                        for n in sorted({u - 1, u, u + 1, 2 * u + 3, -1} - {-2}):
+                            if n < -1:
+                                continue
+                            for k in ("copy", "move"):
+                                out.append(pre2 + ["%s %d" % (k, n), "sel 1", "%s %d" % (k, 1), "%s %d" % (k, 9),
+                                                   "read 99", "replay 99", "sel 0", "copy -1", "read 99", "replay 99"])
+    return out
+
+
 def exhaustive_tiny(meta, maxlen=4):
     """all sequences of length <= maxlen over the 9-op alphabet on a min=2,max=5 buffer, per mode"""
     import itertools
@@ -691,7 +880,9 @@ def exhaustive_tiny(meta, maxlen=4):
 def core_blocks(meta, full):
     """`full`: the assertion+sanitizer flavour gets everything; the shipped flavour a thinner slice
     of the two big sweeps (its code differs only in size_meta and the compiled-out assertions)"""
-    return [("core:exhaustive<=4", exhaustive_tiny(meta, 4 if full else 3)),
+    return [("core:chunk-boundaries", chunk_boundaries(meta)),
+            ("core:beyond-contents", beyond_contents(meta)[::1 if full else 3]),
+            ("core:exhaustive<=4", exhaustive_tiny(meta, 4 if full else 3)),
             ("core:wrap-sweep", wrap_sweep(meta, 1 if full else 5)),
             ("core:pair-sweep", pair_sweep(meta, 1 if full else 3)),
             ("core:growth-steps", growth_core(meta)),
